@@ -32,6 +32,15 @@ CLAIMED["C18"] = ("Store steps (SetSyncedTo, ResetSyncedTo, PutWalletStatus, Mar
 CLAIMED["C19"] = ("Run-time panics (index, slice bounds, nil dereference, failed type assertion, division by zero, explicit panic) are implicit assertions of the symbolic executor, so every harness of every property is also a no-crash check on the code it executes. Dedicated harnesses drive the client-facing input resolution of transaction creation and signing (WalletManager.constructTxIn, signWitnessTx) with an arbitrary client vout and a previous transaction known as mined, only as pending, or unknown (look-ups cut to their contracts), and the API-side script reader (extractAddressInfos, C16 harnesses) and the amount parser (C15 harnesses) on arbitrary bytes. z3 decides that no input inside the bounds reaches a panic.",
          "Trusted: z3, go/ssa, the stated contracts of the cut look-ups (existsMsgTx success implies an output at the index and a block; existsUnminedTx success implies neither). Not covered: the generated gRPC layer, handlers not listed, chain-event paths (filterTx, asyncImport), silent stalls (see C20).", "5/C19")
 
+CLAIMED["C12"] = ("The real AddrManager.nextAddresses and updateManagedAddress (with getChildNum / updateChildNum / putEncryptedPubKey) run symbolically on the model database from an arbitrary state (n = 0..5 addresses issued, arbitrary used-bits, gap limit 2..4): z3 decides that an address is issued exactly when n < G or one of the last G issued indexes is used, that it carries index n, that the stored counter becomes n+1 and the in-memory maps gain exactly that entry, and that a refusal changes nothing. One step from an arbitrary state covers issuing sequences of any length.",
+         "Trusted: z3, go/ssa, model database, and the cuts: hdkeychain.Child as an injective tagging that never returns ErrInvalidChild, the address built from a derived key as a function of that key, a public-key encryptor that never fails. Not covered yet: the restore scan (createManagerKeyScope) that must rediscover every used index, the used-flag maintenance in AddCredits/Rollback, the internal branch.", "5/C12")
+
+CLAIMED["C05"] = ("The passphrase gates through which every secret-using operation goes (AddrManager.checkPassword, safelyCheckPassword, signBtcec, over the real snacl.NewSecretKey / DeriveKey) are executed symbolically for a right passphrase and any other candidate, in the locked state and after a successful unlock: z3 decides that every other candidate is refused with ErrInvalidPassphrase, that a refusal leaves the unlock flag, the cached hash and the salt untouched, and that the right passphrase is accepted before and after refused attempts.",
+         "Trusted: z3, go/ssa, scrypt / SHA-256 / SHA-512 as uninterpreted functions that do not collide on the two passphrases compared (stated in the harness). Bound: passphrases of 0..3 bytes (the code does not branch on their content). Not covered yet: that no secret reaches the database or an export in clear (two-run non-interference, DESIGN 5/C05 T2), exportKeystore / getMnemonic / changePrivPassphrase gates, memory zeroing.", "5/C05")
+
+CLAIMED["C03"] = ("The passphrase half of the property is decided on the real gate that signing goes through (AddrManager.signBtcec -> checkPassword, shared with C05): any passphrase other than the right one is refused before any key is derived or used, also after a successful unlock, and a refusal alters nothing. The crash-freedom of signWitnessTx's input resolution for pending previous outputs is decided under C19.",
+         "Trusted: as C05. NOT claimed: that produced witnesses verify under the consensus script engine (ECDSA and the script VM cannot be encoded) and that only witnesses change - the frame condition of signWitnessTx and the sighash flag table are not covered yet (DESIGN 5/C03 T1a/T2).", "5/C03")
+
 CLAIMED["C20"] = ("The synchronisation skeleton of the block follower (handle), the background worker (worker, asyncImport, asyncRemove, suspend, resume, PushImport/PushRemove) and WalletManager.Stop/NtfnsHandler.Stop/CloseDB is extracted from the go/ssa form of the current source (select, send, receive, close, WaitGroup operations, deferred calls, constant boolean results of skeleton callees; every other branch nondeterministic), channel capacities are read from the constructors, and the product of the goroutine automata with an environment (2 blocks, 2 queued tasks, one Stop) is unrolled into one bit-vector SMT query over scheduler choices. z3 decides that within the bound there is no state after Stop in which a goroutine of the wait group has not finished and no transition is enabled, and that no wait-group counter goes negative. A deadlock trace is confirmed natively (real handle and suspend/resume on real channels) before it is reported.",
          "Trusted: z3 4.8.12, go/ssa, the extraction (printed in the evidence, one line per skeleton edge with source position). Assumes calls without synchronisation operations terminate; database/keystore mutexes are not modelled; Start has run. Bound: 24 scheduler steps (36 thorough). Liveness under fairness and the p2p side that fills the queues are outside the claim.", "2.6, 5/C20")
 
